@@ -266,8 +266,9 @@ class C31(Property):
             if len(ch) > 1 and len(set(ch)) == 1 and h * w * ch[0] >= 16 and c["signal"] * (c["dose"][0] if isinstance(c["dose"], list) else c["dose"]) >= 1:
                 blocks = np.split(la, np.cumsum(ch)[:-1], axis=item_axis)
                 if all(np.array_equal(blocks[0], b) for b in blocks[1:]):
-                    ctx.violation("seeded-lazy-blocks-identical-noise" if c["seed"] is not None else "unseeded-lazy-blocks-identical-noise",
-                                  c, {"chunks": ch})
+                    # a transform is seeded when the user gave a seed or when a sample axis exists (its seeds are drawn once, at construction)
+                    seeded = c["seed"] is not None or c["samples"] > 1
+                    ctx.violation("seeded-lazy-blocks-identical-noise" if seeded else "unseeded-lazy-blocks-identical-noise", c, {"chunks": ch})
 
     def gen(self, ctx: Ctx):
         rng = ctx.rng
